@@ -25,7 +25,7 @@ TOWERS = [
 ]
 
 
-def make_config(nt, ns, use_cache=False, repeated_met=False, levels=None, nx=8, sweep=False, timestamps=True):
+def make_config(nt, ns, use_cache=False, repeated_met=False, levels=None, nx=8, sweep=False, timestamps=True, solver_extra=None):
     from bldfm.config_parser import parse_config_dict
 
     # the records of a series are NOT in any sorted order (time order is the only order that counts): with three or more
@@ -46,7 +46,7 @@ def make_config(nt, ns, use_cache=False, repeated_met=False, levels=None, nx=8, 
         "domain": dom,
         "towers": [dict(t) for t in TOWERS[:nt]],
         "met": dict({"ustar": ustar, "mol": -120.0, "wind_speed": 3.5, "wind_dir": wd}, **({"timestamps": ["%d:00" % (7 * i + 2) for i in range(ns)]} if timestamps else {})),      # "2:00", "9:00", "16:00", "23:00", "30:00": not in text order
-        "solver": {"footprint": True, "precision": "double", "closure": "MOST"},
+        "solver": dict({"footprint": True, "precision": "double", "closure": "MOST"}, **(solver_extra or {})),
         "parallel": {"use_cache": bool(use_cache)},
     }
     return parse_config_dict(raw)
@@ -326,7 +326,10 @@ def main():
     nruns += cli_runs(chk, cfg_cache, ref_cache)
     # a direction sweep (only wind_dir varies from step to step) and a series with repeated records, cache off
     for kind, cfgs in (("sweep", make_config(2, 3, sweep=True)), ("repeated", make_config(2, 3, repeated_met=True)), ("no timestamps", make_config(2, 3, timestamps=False)),
-                       ("five steps in no sorted order", make_config(1, 5, sweep=True)), ("levels below the top node", make_config(2, 3, levels=[1, 3]))):
+                       ("five steps in no sorted order", make_config(1, 5, sweep=True)), ("levels below the top node", make_config(2, 3, levels=[1, 3])),
+                       # every solver option of the configuration reaches every driver: a dispersion run of a non-default source
+                       ("dispersion of a circular source off the centre", make_config(2, 2, solver_extra={"footprint": False, "surface_flux_shape": "circle", "src_loc": [60.0, 30.0]})),
+                       ("dispersion of a point source", make_config(1, 3, solver_extra={"footprint": False, "surface_flux_shape": "point"}))):
         rtcfg.NUM_THREADS = 1
         refs_s = references(cfgs)
         for strat in ("serial", "towers", "time", "both"):
